@@ -297,6 +297,7 @@ class Remove(DQSpec):
         W = self.W
         self.new_object(ex)
         self.ret_state = None
+        self.at_acquire = self.at_release = None
         return {"self": self.me, "predicate": VOpaque("callable", lambda ex, a, k, n: VBool(W.pred(W.Elem.unwrap(a[0]))))}
 
     def acquire(self, ex):
@@ -311,12 +312,17 @@ class Remove(DQSpec):
         W = self.W
         j = z3.Const("rj", z3.IntSort())
         q = ex.heap[(self.me.id, "_queue")]
+        if self.at_acquire is None:
+            return [("the queue is scanned with its lock held", z3.BoolVal(False))]
         out = [("no-earlier-match", z3.ForAll([j], z3.Implies(z3.And(0 <= j, j < k), z3.Not(W.pred(W.elem(q, j)))))),
                ("queue-unchanged-while-scanning", z3.And(q.n == self.at_acquire["q"].n, q.arr == self.at_acquire["q"].arr))]
         return out
 
     def post(self, ex, result):
         W = self.W
+        if self.at_acquire is None or self.at_release is None:
+            ex.oblige("post[remove() is one critical section of the queue's lock]", False)
+            return
         o, n = self.at_acquire, self.at_release
         j = z3.Const("pj", z3.IntSort())
         ex.oblige("post[lock released]", LOCK not in ex.held)
